@@ -487,8 +487,8 @@ def ascii_of(img: np.ndarray) -> str:
 
 
 def raster_pair(cl, solution, remove_isolated_cells=True, extend_pixels=True, endpoints_as_open=False):
-    """expected (input, target) images of C17 and, for each, a mask of pixels where the statement is ambiguous
-    (a coloured start/end pixel taking part in the 'no open 4-neighbour' rule): returns (inp, tgt, amb_inp, amb_tgt)"""
+    """expected (input, target) images of C17; returns (inp, tgt, amb_inp, amb_tgt) where the amb masks (pixels not judged) are
+    all-False since the isolated-pixel rule is read from the option's own documentation (see below)"""
     sol = [tuple(int(x) for x in p) for p in solution]
     s, e = sol[0], sol[-1]
     inp = pixels(cl, s, e, None, True, False)
@@ -512,9 +512,10 @@ def raster_pair(cl, solution, remove_isolated_cells=True, extend_pixels=True, en
                 has_nb = pad[1:-1, 2:] | pad[1:-1, :-2] | pad[2:, 1:-1] | pad[:-2, 1:-1]
                 return mask_self & ~has_nb
 
-            iso_a = isolated(nonwall, nonwall)          # reading A: open = not wall
-            iso_b = isolated(strict_open, strict_open)  # reading B: open = the OPEN colour only
-            amb = iso_a ^ iso_b
+            # "does exactly what it says": the option's own documentation (docstring of _remove_isolated_cells) says "an isolated
+            # cell is a cell that is surrounded by walls on all sides" - i.e. a non-wall pixel all of whose 4-neighbours are wall
+            # (outside counts as wall).  Coloured start/end pixels are non-wall on both sides of that rule.
+            iso_a = isolated(nonwall, nonwall)
             img = img.copy()
             img[iso_a] = WALL
         if extend_pixels:
